@@ -934,7 +934,13 @@ class NP:
         return numpy.sum(a, axis=axis, **kw)
 
     def isnan(self, x):
-        return numpy.zeros(numpy.shape(x), dtype=bool)
+        return numpy.zeros(numpy.shape(x), dtype=bool) if numpy.shape(x) else False
+
+    def isinf(self, x):
+        return numpy.zeros(numpy.shape(x), dtype=bool) if numpy.shape(x) else False
+
+    def isfinite(self, x):
+        return numpy.ones(numpy.shape(x), dtype=bool) if numpy.shape(x) else True
 
     def less_equal(self, a, b):
         return numpy.less_equal(a, b)
